@@ -51,7 +51,8 @@ CONSTANTS
     MaxOps,       \* design: total number of calls
     MaxPerThread, \* design: calls per thread
     Exact,        \* TRUE: sequential reading (no spurious miss, no eviction below cap)
-    Dev,          \* deviation switch for non-vacuity: "none" | "noevict" | "stale" | "foreign" | "expired"
+    Dev,          \* deviation switch for non-vacuity: "none" | "noevict" | "stale" | "foreign" |
+                  \* "expired" | "rangestale" | "lenover"
     TraceMode,    \* TRUE: phases come from the logged operation, not from `now`
     SkipBand,     \* design: Tick jumps from phase 0 to phase 2 (generator)
     WithHist      \* record hist (behaviour export)
@@ -152,7 +153,8 @@ SureLive(p) == {k \in Dom : m[k].e = "long" \/ (m[k].e = "short" /\ p = 0)}
 
 LinLen(t, n) ==
     /\ op[t].type = "len" /\ ~op[t].done
-    /\ n \in (IF Exact THEN Cardinality(SureLive(PhaseOf(t)))..Cardinality(Dom) ELSE 0..cap)
+    /\ n \in (IF Exact THEN Cardinality(SureLive(PhaseOf(t)))..Cardinality(Dom)
+               ELSE 0..(IF Dev = "lenover" THEN cap + 1 ELSE cap))
     /\ op' = [op EXCEPT ![t].done = TRUE, ![t].res = n]
     /\ UNCHANGED <<cap, m, now, info, retd, dead>>
 
@@ -171,7 +173,10 @@ RangeStep(t, S, R) ==
     /\ R \subseteq S \cap Dom
     /\ Exact => (S \cap SureLive(PhaseOf(t))) \subseteq R
     /\ op' = [op EXCEPT ![t].todo = @ \ S, ![t].done = (op[t].todo \ S = {}),
-                        ![t].acc = @ \cup {<<k, m[k].v>> : k \in R}]
+                        ![t].acc = @ \cup {<<k, m[k].v>> : k \in R}
+                                     \cup (IF Dev = "rangestale"
+                                           THEN {<<info[x].k, x>> : x \in {y \in Used : info[y].k \in S}}
+                                           ELSE {})]
     /\ UNCHANGED <<cap, m, now, info, retd, dead>>
 
 Ret(t) ==
@@ -189,6 +194,7 @@ Ret(t) ==
 Tick ==
     /\ "short" \in Exps
     /\ now < 2
+    /\ SkipBand => \A t \in Threads : op[t].type = "idle"   \* generator: time passes between calls
     /\ now' = IF SkipBand THEN 2 ELSE now + 1
     /\ hist' = IF WithHist THEN Append(hist, [op |-> "tick", k |-> 0, v |-> 0, e |-> "none",
                                                ph |-> now', res |-> 0, rng |-> {}]) ELSE hist
@@ -214,9 +220,9 @@ DInternal(t) ==
     /\ \/ op[t].type = "get" /\ \E r \in GetResults(op[t].k, PhaseOf(t)) : LinGet(t, r)
        \/ \E E \in SUBSET Dom : \E eff \in BOOLEAN : LinStore(t, E, eff)
        \/ LinDel(t)
-       \/ \E n \in 0..Cardinality(Keys) : LinLen(t, n)
-       \/ \E S \in SUBSET op[t].todo : FlushStep(t, S)
-       \/ \E S \in SUBSET op[t].todo : \E R \in SUBSET S : RangeStep(t, S, R)
+       \/ \E n \in 0..(Cardinality(Keys) + 1) : LinLen(t, n)
+       \/ \E k \in op[t].todo : FlushStep(t, {k})
+       \/ \E k \in op[t].todo : \E R \in SUBSET {k} : RangeStep(t, {k}, R)
     /\ UNCHANGED <<cnt, hist>>
 
 Next == (\E t \in Threads : DCall(t) \/ DInternal(t) \/ Ret(t)) \/ Tick
@@ -266,4 +272,5 @@ Terminal == Total = MaxOps /\ \A t \in Threads : op[t].type = "idle"
 Emit == Terminal => PrintT(<<"BEH", ToJson([cap |-> cap, steps |-> hist])>>)
 
 ViewNoHist == <<cap, m, op, now, info, retd, dead, cnt>>
+ThreadSym == Permutations(Threads)
 =============================================================================
